@@ -103,8 +103,11 @@ def eval_trunc(case):
     always_on = name in ("cisco_pix", "cisco_asa")
     width = "ascii" if p.isascii() else "multibyte"
     key = f"C05|{name}|trunc_{mode}:{width}:{form}" + (f":{enc}" if enc else "")
+    extra = case.get("extra") or {}
+    if extra:
+        key += ":" + ",".join(f"{k}={v}" for k, v in sorted(extra.items()))
     with use_backend(name, backend) as H:
-        kw = cheap(name)
+        kw = dict(cheap(name), **extra)
         try:
             if mode == "on_using":
                 Hc = H.using(truncate_error=True, **kw)
@@ -162,7 +165,7 @@ def eval_trunc(case):
             for pos in sorted({0, max(0, min(T, limit) - 2), max(0, min(T, limit) - 1)}):
                 if pos < min(T, limit):
                     q = pb[:pos] + bytes([pb[pos] ^ 0x01]) + pb[pos + 1 :]
-                    if b"\x00" not in q and not HS.equiv(name, pb, q, ctxkw, {}):
+                    if b"\x00" not in q and not HS.equiv(name, pb, q, ctxkw, extra):
                         probes.append((f"flip@{'first' if pos == 0 else 'near_limit'}", q, False))
             if T > limit and not always_on:
                 q = pb[:limit] + bytes([pb[limit] ^ 0x01]) + pb[limit + 1 :]
@@ -288,8 +291,11 @@ def eval_nul(case):
     secret = p if form == "text" else p.encode()
     out = []
     key = f"C05|{name}|{backend}|nul:{form}"
+    extra = case.get("extra") or {}
+    if extra:
+        key += ":" + ",".join(f"{k}={v}" for k, v in sorted(extra.items()))
     with use_backend(name, backend) as H:
-        kw = cheap(name)
+        kw = dict(cheap(name), **extra)
         Hc = H.using(**kw) if kw else H
         ref = Hc.hash(p[:pos] or "x")
         for op, f in (("hash", lambda: Hc.hash(secret)), ("verify", lambda: Hc.verify(secret, ref))):
@@ -326,7 +332,9 @@ def work(task):
         acc.ev()
         part = case["part"]
         acc.cls(part, case["hasher"], case.get("backend"), case.get("mode"), case.get("shape") or case.get("n"),
-                case.get("form"), case.get("encoding"), case.get("pos"), case.get("via"))
+                case.get("form"), case.get("encoding"), case.get("pos"), case.get("via"), sorted((case.get("extra") or {}).items()))
+        if case.get("extra"):
+            acc.axis("ident", case["extra"].get("ident"))
         acc.axis("part", part)
         acc.axis("hasher", case["hasher"])
         if case.get("backend"):
@@ -367,6 +375,20 @@ def run(ctx):
                                 continue
                             cases.append({"part": "trunc", "hasher": name, "backend": backend, "mode": mode,
                                           "shape": shape, "password": p, "form": form, "encoding": enc})
+        # every other value of the 'ident' option (bcrypt: '2', '2a', '2y', '2b' -- '$2$' is emulated by cycling
+        # the password to 72 bytes on backends without native support), boundary passwords only
+        idents = HS.ident_values(name)
+        if idents:
+            short = [t for t in trunc_passwords(limit) if t[0].split(":")[1] in ("T-1", "T+0", "T+1", "T+2")]
+            for backend in backends_of(name):
+                if backend == "builtin" and ctx.quick:
+                    continue
+                for ident in idents:
+                    for mode in modes:
+                        for shape, p in (short[::2] if ctx.quick else short):
+                            for form in ("text", "bytes"):
+                                cases.append({"part": "trunc", "hasher": name, "backend": backend, "mode": mode, "shape": shape,
+                                              "password": p, "form": form, "encoding": None, "extra": {"ident": ident}})
         if name == "lmhash":
             # expansion under upper-casing: 'ß' -> 'SS'
             for k in range(12, 16):
